@@ -284,6 +284,15 @@ func (e StdEng) denseConcat(a DenseTensor, axis int, Ts []DenseTensor) (DenseTen
 	// special case
 	var start, end int
 	for _, T := range all {
+		// the operand may be reshaped and unmasked for the copy below: that is done on a
+		// second header over its storage, the operand itself is left as it is
+		d, ok := T.(*Dense)
+		if !ok {
+			return nil, errors.Errorf("Concat of a %T is not yet implemented", T)
+		}
+		sc := d.ShallowClone()
+		defer ReturnTensor(sc)
+		T = sc
 		end += T.Shape()[axis]
 		slices := make([]Slice, axis+1)
 		slices[axis] = makeRS(start, end)
